@@ -154,6 +154,7 @@ def run(ctx):
     c04.rule_r5.__wrapped__ = None
     # respondent routing state (same rule body as C04.R5 / R4, reported under C07)
     r4 = ctx.rule  # noqa
+    ctx.guard(c04.rule_r2)
     ctx.guard(c04.rule_r4)
     ctx.guard(c04.rule_r5)
     for rr in ctx.rules:
